@@ -56,4 +56,4 @@ package grpcutil
 // The default call options therefore never contain WaitForReady(true).
 //@ contract MakeDialOptions
 //@   props C11
-//@   callpre WaitForReady: @calls_fail_fast: !$0
+//@   callpre WaitForReady?: @calls_fail_fast: !$0
